@@ -1,6 +1,7 @@
 import PlzVerif.Model.TestCache
 import PlzVerif.Lemmas.Build
 import PlzVerif.Lemmas.BuildNoop
+import PlzVerif.Lemmas.BuildCache
 /-! Lemmas for C11: the history invariant of the results files and "reported outcome = outcome of the current
     runtime inputs".  Core only. -/
 namespace PlzVerif.TestCache
@@ -38,159 +39,271 @@ theorem rinv_restrict (P : A' → List (N × C) → Prop) (res : Results K (RSta
   · simp [hkk] at hk; exact h k s hk
   · simp [hkk] at hk
 
-/-- What is in the results file after `testOne` is good (needs only the AllSucceeded guard of the store). -/
-theorem testOne_stored_good (P : A' → List (N × C) → Prop) (hstore : fx.storeIfAllSucceeded = true)
-    (fl : Flags) (bs : BState) (noOut : Bool) (g : G) (a : A') (files : List (N × C))
-    (stored : Option (Stored (RStamp S' G N H)))
-    (hg : ∀ s, stored = some s → Good fx ruleSerRT pathSer outcome P s) (hp : P a files) :
-    ∀ s', (testOne fx outcome fl bs noOut a files (runtimeSer fx ruleSerRT pathSer g a files) stored).1 = some s' →
-      Good fx ruleSerRT pathSer outcome P s' := by
-  intro s' hs'
-  unfold testOne at hs'
-  simp only at hs'
-  split at hs'
-  · exact hg s' hs'
-  · split at hs'
-    · split at hs'
-      · rename_i hst
-        simp only [hstore, Bool.not_true, Bool.false_or, Bool.and_eq_true, beq_iff_eq] at hst
+/-- Invariant of the results files held by the artifact cache: filed under their own hash, and good. -/
+def RCInv (P : A' → List (N × C) → Prop) (rc : RCache K (RStamp S' G N H)) : Prop :=
+  ∀ k h s, rc (k, h) = some s → s.stamp = h ∧ Good fx ruleSerRT pathSer outcome P s
+
+theorem rcinv_empty (P : A' → List (N × C) → Prop) :
+    RCInv fx ruleSerRT pathSer outcome P (fun (_ : K × RStamp S' G N H) => (none : Option (Stored (RStamp S' G N H)))) := by
+  intro k h s hh; simp at hh
+
+theorem rcinv_restrict (P : A' → List (N × C) → Prop) (rc : RCache K (RStamp S' G N H)) (keep : K × RStamp S' G N H → Bool)
+    (h : RCInv fx ruleSerRT pathSer outcome P rc) :
+    RCInv fx ruleSerRT pathSer outcome P (fun q => if keep q then rc q else none) := by
+  intro k hh s hk
+  by_cases hkk : keep (k, hh) = true
+  · simp [hkk] at hk; exact h k hh s hk
+  · simp [hkk] at hk
+
+section one
+variable {R : Type} [DecidableEq R]
+
+/-- When `needToRun` says no, the results file it leaves is either the stored one (whose recorded hash was
+    compared with the current one) or the one just retrieved from the cache. -/
+theorem needToRun_false (fl : Flags) (bs : BState) (stored hit : Option (Stored R)) (h : R) (f : Option (Stored R))
+    (hn : needToRun fx fl bs stored h hit = (false, f)) :
+    (∃ s, stored = some s ∧ f = some s ∧ (fx.verifiesHash = true → s.stamp = h)) ∨ (∃ c, hit = some c ∧ f = some c) := by
+  unfold needToRun at hn
+  by_cases hf : (fx.rerunForces && fl.rerun) = true
+  · rw [if_pos hf] at hn; simp at hn
+  · rw [if_neg hf] at hn
+    split at hn
+    · rename_i s _
+      simp only [Prod.mk.injEq] at hn
+      refine Or.inl ⟨s, rfl, hn.2.symm, ?_⟩
+      intro hv
+      simpa [hv] using hn.1
+    · split at hn
+      · rename_i c
+        simp only [Prod.mk.injEq, true_and] at hn
+        exact Or.inr ⟨c, rfl, hn.symm⟩
+      · simp at hn
+
+/-- The results file `needToRun` leaves is the stored one, or the one retrieved from the cache. -/
+theorem needToRun_snd (fl : Flags) (bs : BState) (stored hit : Option (Stored R)) (h : R) :
+    (needToRun fx fl bs stored h hit).2 = stored ∨ ∃ c, hit = some c ∧ (needToRun fx fl bs stored h hit).2 = some c := by
+  unfold needToRun
+  by_cases hf : (fx.rerunForces && fl.rerun) = true
+  · rw [if_pos hf]; exact Or.inl rfl
+  · rw [if_neg hf]
+    split
+    · exact Or.inl rfl
+    · split
+      · rename_i c; exact Or.inr ⟨c, rfl, rfl⟩
+      · exact Or.inl rfl
+
+theorem afterNeedToRun_snd (fl : Flags) (bs : BState) (stored hit : Option (Stored R)) (h : R) :
+    (afterNeedToRun fx fl bs stored h hit).2 = stored ∨
+    ∃ c, hit = some c ∧ (afterNeedToRun fx fl bs stored h hit).2 = some c := by
+  unfold afterNeedToRun
+  split
+  · exact needToRun_snd fx fl bs stored hit h
+  · exact Or.inl rfl
+
+theorem reused_some (fl : Flags) (bs : BState) (stored hit : Option (Stored R)) (h : R) (s : Stored R)
+    (hr : reused fx fl bs stored h hit = some s) :
+    (stored = some s ∧ (fx.verifiesHash = true → s.stamp = h)) ∨ hit = some s := by
+  unfold reused at hr
+  split at hr
+  · rename_i s0 heq
+    split at hr
+    · simp at hr
+    · simp only [Option.some.injEq] at hr
+      subst hr
+      unfold afterNeedToRun at heq
+      split at heq
+      · rcases needToRun_false fx fl bs stored hit h _ heq with ⟨s1, h1, h2, h3⟩ | ⟨c, h1, h2⟩
+        · simp only [Option.some.injEq] at h2; subst h2; exact Or.inl ⟨h1, h3⟩
+        · simp only [Option.some.injEq] at h2; subst h2; exact Or.inr h1
+      · simp at heq
+  · simp at hr
+
+/-- Facts about a real run of the command. -/
+theorem runTest_spec (fl : Flags) (dummy : Bool) (a : A') (files : List (N × C)) (h : R) (file1 : Option (Stored R)) :
+    (runTest fx outcome fl dummy a files h file1).2.2.res = outcome a files ∧
+    (runTest fx outcome fl dummy a files h file1).2.2.cached = false ∧
+    (runTest fx outcome fl dummy a files h file1).2.2.runs = (if fl.numRuns == 1 then 1 else fl.numRuns) ∧
+    (∀ s', (runTest fx outcome fl dummy a files h file1).2.1 = some s' →
+      (runTest fx outcome fl dummy a files h file1).1 = some s' ∧ s'.stamp = h ∧
+      (fx.storeIfAllSucceeded = true → outcome a files = .pass ∧ s'.res = .pass)) ∧
+    (∀ s', (runTest fx outcome fl dummy a files h file1).1 = some s' →
+      (runTest fx outcome fl dummy a files h file1).2.1 = some s' ∨ (fx.removesBefore = false ∧ file1 = some s')) := by
+  unfold runTest
+  by_cases hnr : (fl.numRuns == 1) = true
+  · simp only [hnr, if_true]
+    split
+    · rename_i hst
+      refine ⟨rfl, rfl, rfl, ?_, ?_⟩
+      · intro s' hs'
         simp only [Option.some.injEq] at hs'
         subst hs'
-        refine ⟨?_, g, a, files, hp, rfl, hst.1.1⟩
+        refine ⟨rfl, rfl, ?_⟩
+        intro hsa
+        simp only [hsa, Bool.not_true, Bool.false_or, Bool.and_eq_true, beq_iff_eq] at hst
+        refine ⟨hst.1.1, ?_⟩
         simp only [hst.1.1]; split <;> rfl
-      · split at hs'
-        · simp at hs'
-        · exact hg s' hs'
-    · split at hs'
-      · simp at hs'
-      · exact hg s' hs'
+      · intro s' hs'; exact Or.inl hs'
+    · refine ⟨rfl, rfl, rfl, ?_, ?_⟩
+      · intro s' hs'; simp at hs'
+      · intro s' hs'
+        right
+        by_cases hrm : fx.removesBefore = true
+        · simp [hrm] at hs'
+        · simp only [hrm] at hs'
+          exact ⟨by simpa using hrm, by simpa using hs'⟩
+  · simp only [hnr]
+    refine ⟨rfl, rfl, rfl, ?_, ?_⟩
+    · intro s' hs'; simp at hs'
+    · intro s' hs'
+      right
+      by_cases hrm : fx.removesBefore = true
+      · simp [hrm] at hs'
+      · simp only [hrm] at hs'
+        exact ⟨by simpa using hrm, by simpa using hs'⟩
+
+/-- `testOne` either reports a reused result (from the results file or the cache) or runs the command. -/
+theorem testOne_cases (fl : Flags) (bs : BState) (dummy : Bool) (a : A') (files : List (N × C)) (h : R)
+    (stored hit : Option (Stored R)) :
+    (∃ s, ((stored = some s ∧ (fx.verifiesHash = true → s.stamp = h)) ∨ hit = some s) ∧
+        testOne fx outcome fl bs dummy a files h stored hit = (some s, none, ⟨s.res, true, 0⟩)) ∨
+    ((testOne fx outcome fl bs dummy a files h stored hit).2.2.res = outcome a files ∧
+     (testOne fx outcome fl bs dummy a files h stored hit).2.2.cached = false ∧
+     (testOne fx outcome fl bs dummy a files h stored hit).2.2.runs = (if fl.numRuns == 1 then 1 else fl.numRuns) ∧
+     (∀ s', (testOne fx outcome fl bs dummy a files h stored hit).2.1 = some s' →
+        (testOne fx outcome fl bs dummy a files h stored hit).1 = some s' ∧ s'.stamp = h ∧
+        (fx.storeIfAllSucceeded = true → outcome a files = .pass ∧ s'.res = .pass)) ∧
+     (∀ s', (testOne fx outcome fl bs dummy a files h stored hit).1 = some s' →
+        (testOne fx outcome fl bs dummy a files h stored hit).2.1 = some s' ∨
+        (fx.removesBefore = false ∧ (stored = some s' ∨ hit = some s')))) := by
+  unfold testOne
+  cases hr : reused fx fl bs stored h hit with
+  | some s => exact Or.inl ⟨s, reused_some fx fl bs stored hit h s hr, rfl⟩
+  | none =>
+    right
+    obtain ⟨h1, h2, h3, h4, h5⟩ := runTest_spec fx outcome fl dummy a files h (afterNeedToRun fx fl bs stored h hit).2
+    refine ⟨h1, h2, h3, h4, ?_⟩
+    intro s' hs'
+    rcases h5 s' hs' with h6 | ⟨h6, h7⟩
+    · exact Or.inl h6
+    · refine Or.inr ⟨h6, ?_⟩
+      rcases afterNeedToRun_snd fx fl bs stored hit h with h8 | ⟨c, h8, h9⟩
+      · rw [h8] at h7; exact Or.inl h7
+      · rw [h9] at h7; exact Or.inr (h8.trans h7)
+
+end one
+
+/-- What `testOne` leaves in the results file and puts into the cache is good (needs only the AllSucceeded guard). -/
+theorem testOne_stored_good (P : A' → List (N × C) → Prop) (hstore : fx.storeIfAllSucceeded = true)
+    (fl : Flags) (bs : BState) (noOut : Bool) (g : G) (a : A') (files : List (N × C))
+    (stored hit : Option (Stored (RStamp S' G N H)))
+    (hg : ∀ s, stored = some s → Good fx ruleSerRT pathSer outcome P s)
+    (hh : ∀ s, hit = some s → Good fx ruleSerRT pathSer outcome P s) (hp : P a files) :
+    (∀ s', (testOne fx outcome fl bs noOut a files (runtimeSer fx ruleSerRT pathSer g a files) stored hit).1 = some s' →
+      Good fx ruleSerRT pathSer outcome P s') ∧
+    (∀ s', (testOne fx outcome fl bs noOut a files (runtimeSer fx ruleSerRT pathSer g a files) stored hit).2.1 = some s' →
+      s'.stamp = runtimeSer fx ruleSerRT pathSer g a files ∧ Good fx ruleSerRT pathSer outcome P s') := by
+  rcases testOne_cases fx outcome fl bs noOut a files (runtimeSer fx ruleSerRT pathSer g a files) stored hit with
+    ⟨s, hs, he⟩ | ⟨_, _, _, h4, h5⟩
+  · rw [he]
+    refine ⟨?_, by intro s' hs'; simp at hs'⟩
+    intro s' hs'
+    simp only [Option.some.injEq] at hs'
+    subst hs'
+    rcases hs with ⟨h1, _⟩ | h1
+    · exact hg _ h1
+    · exact hh _ h1
+  · have hnew : ∀ s', (testOne fx outcome fl bs noOut a files (runtimeSer fx ruleSerRT pathSer g a files) stored hit).2.1 = some s' →
+        s'.stamp = runtimeSer fx ruleSerRT pathSer g a files ∧ Good fx ruleSerRT pathSer outcome P s' := by
+      intro s' hs'
+      obtain ⟨_, hst, hps⟩ := h4 s' hs'
+      obtain ⟨ho, hr⟩ := hps hstore
+      exact ⟨hst, hr, g, a, files, hp, hst, ho⟩
+    refine ⟨?_, hnew⟩
+    intro s' hs'
+    rcases h5 s' hs' with h6 | ⟨_, h6 | h6⟩
+    · exact (hnew s' h6).2
+    · exact hg _ h6
+    · exact hh _ h6
 
 /-- The reported outcome is the outcome of the current runtime inputs (needs the hash check and injectivity). -/
 theorem testOne_res (P : A' → List (N × C) → Prop) (hv : fx.verifiesHash = true)
     (hinj : InjOn (G := G) fx ruleSerRT pathSer P)
     (fl : Flags) (bs : BState) (noOut : Bool) (g : G) (a : A') (files : List (N × C))
-    (stored : Option (Stored (RStamp S' G N H)))
-    (hg : ∀ s, stored = some s → Good fx ruleSerRT pathSer outcome P s) (hp : P a files) :
-    (testOne fx outcome fl bs noOut a files (runtimeSer fx ruleSerRT pathSer g a files) stored).2.res = outcome a files := by
-  unfold testOne
-  simp only
-  split
-  · rename_i o ho
-    -- reused: the stored stamp equals the current pre-image
-    split at ho
-    · rename_i hreuse
-      cases hst : stored with
-      | none => simp [hst] at ho
-      | some s =>
-        simp only [hst] at ho
-        have hs := hg s hst
-        obtain ⟨hpass, g0, a0, f0, hp0, hstamp, hout⟩ := hs
-        simp only [Bool.and_eq_true, Bool.not_eq_true'] at hreuse
-        have hn := hreuse.2
-        unfold needToRun at hn
-        simp only [hst] at hn
-        split at hn
-        · simp at hn
-        · split at hn
-          · simp only [hv, Bool.true_and, bne_eq_false_iff_eq] at hn
-            rw [hstamp] at hn
-            obtain ⟨ha, hf⟩ := hinj g0 g a0 f0 a files hp0 hp hn
-            subst ha; subst hf
-            split at ho
-            · simp at ho
-            · simp only [Option.some.injEq] at ho
-              simp only [← ho, hpass, hout]
-          · simp at hn
-    · simp at ho
-  · split <;> rfl
+    (stored hit : Option (Stored (RStamp S' G N H)))
+    (hg : ∀ s, stored = some s → Good fx ruleSerRT pathSer outcome P s)
+    (hh : ∀ s, hit = some s → s.stamp = runtimeSer fx ruleSerRT pathSer g a files ∧ Good fx ruleSerRT pathSer outcome P s)
+    (hp : P a files) :
+    (testOne fx outcome fl bs noOut a files (runtimeSer fx ruleSerRT pathSer g a files) stored hit).2.2.res = outcome a files := by
+  rcases testOne_cases fx outcome fl bs noOut a files (runtimeSer fx ruleSerRT pathSer g a files) stored hit with
+    ⟨s, hs, he⟩ | ⟨h1, _⟩
+  · rw [he]
+    have : s.stamp = runtimeSer fx ruleSerRT pathSer g a files ∧ Good fx ruleSerRT pathSer outcome P s := by
+      rcases hs with ⟨h1, h2⟩ | h1
+      · exact ⟨h2 hv, hg _ h1⟩
+      · exact hh _ h1
+    obtain ⟨hst, hpass, g0, a0, f0, hp0, hstamp, hout⟩ := this
+    rw [hstamp] at hst
+    obtain ⟨ha, hf⟩ := hinj g0 g a0 f0 a files hp0 hp hst
+    subst ha; subst hf
+    simp only [hpass, hout]
+  · exact h1
 
-/-- A result reported as cached is a pass (no injectivity: only the store guard). -/
+/-- A result reported as cached is a pass, nothing was executed, and it came from a results file whose recorded
+    hash equals the current one, or from the cache entry filed under the current hash. -/
 theorem testOne_cached_pass (fl : Flags) (bs : BState) (noOut : Bool) (a : A') (files : List (N × C))
-    {R : Type} [DecidableEq R] (h : R) (stored : Option (Stored R))
-    (hg : ∀ s, stored = some s → s.res = .pass) :
-    (testOne fx outcome fl bs noOut a files h stored).2.cached = true →
-      (testOne fx outcome fl bs noOut a files h stored).2.res = .pass ∧
-      (testOne fx outcome fl bs noOut a files h stored).2.runs = 0 ∧
-      ∃ s, stored = some s ∧ s.res = .pass ∧ (fx.verifiesHash = true → s.stamp = h) := by
-  unfold testOne
-  simp only
-  split
-  · rename_i o ho
+    {R : Type} [DecidableEq R] (h : R) (stored hit : Option (Stored R))
+    (hg : ∀ s, stored = some s → s.res = .pass) (hh : ∀ s, hit = some s → s.res = .pass) :
+    (testOne fx outcome fl bs noOut a files h stored hit).2.2.cached = true →
+      (testOne fx outcome fl bs noOut a files h stored hit).2.2.res = .pass ∧
+      (testOne fx outcome fl bs noOut a files h stored hit).2.2.runs = 0 ∧
+      ∃ s, s.res = .pass ∧ ((stored = some s ∧ (fx.verifiesHash = true → s.stamp = h)) ∨ hit = some s) := by
+  rcases testOne_cases fx outcome fl bs noOut a files h stored hit with ⟨s, hs, he⟩ | ⟨_, h2, _⟩
+  · rw [he]
     intro _
-    split at ho
-    · rename_i hreuse
-      cases hst : stored with
-      | none => simp [hst] at ho
-      | some s =>
-        simp only [hst] at ho
-        have hpass := hg s hst
-        split at ho
-        · simp at ho
-        · simp only [Option.some.injEq] at ho
-          refine ⟨by simp only [← ho, hpass], rfl, s, rfl, hpass, ?_⟩
-          intro hv
-          simp only [Bool.and_eq_true, Bool.not_eq_true'] at hreuse
-          have hn := hreuse.2
-          unfold needToRun at hn
-          simp only [hst] at hn
-          split at hn
-          · simp at hn
-          · split at hn
-            · simpa [hv] using hn
-            · simp at hn
-    · simp at ho
-  · split <;> simp
+    have hp : s.res = .pass := by
+      rcases hs with ⟨h1, _⟩ | h1
+      · exact hg _ h1
+      · exact hh _ h1
+    exact ⟨hp, rfl, s, hp, hs⟩
+  · intro hc; rw [h2] at hc; simp at hc
 
 /-- A run that did not pass leaves no results file (RemoveTestOutputs + the store guard). -/
 theorem testOne_not_pass_clears (hstore : fx.storeIfAllSucceeded = true) (hrm : fx.removesBefore = true)
     (fl : Flags) (bs : BState) (noOut : Bool) (a : A') (files : List (N × C))
-    {R : Type} [DecidableEq R] (h : R) (stored : Option (Stored R))
-    (hg : ∀ s, stored = some s → s.res = .pass)
-    (hne : (testOne fx outcome fl bs noOut a files h stored).2.res ≠ .pass) :
-    (testOne fx outcome fl bs noOut a files h stored).1 = none := by
-  unfold testOne at hne ⊢
-  simp only at hne ⊢
-  split
-  · rename_i o ho
-    simp only [ho] at hne
-    split at ho
-    · cases hst : stored with
-      | none => simp [hst] at ho
-      | some s =>
-        simp only [hst] at ho
-        split at ho
-        · simp at ho
-        · simp only [Option.some.injEq] at ho
-          exact absurd (ho ▸ hg s hst) hne
-    · simp at ho
-  · rename_i hnone
-    simp only [hnone] at hne
-    have ho : outcome a files ≠ .pass := by
-      intro h'
-      apply hne
-      split <;> exact h'
-    by_cases hnr : (fl.numRuns == 1) = true
-    · have hst : ((!fx.storeIfAllSucceeded || outcome a files == .pass) && (!fx.storeIfNoFailures || outcome a files != .fail) &&
-          (!fx.storeIfNoArgs || !fl.hasArgs)) = false := by
-        simp [hstore, ho]
-      simp only [hnr, if_true, hst, hrm]
-      simp
-    · simp only [hnr, hrm]
-      simp
+    {R : Type} [DecidableEq R] (h : R) (stored hit : Option (Stored R))
+    (hg : ∀ s, stored = some s → s.res = .pass) (hh : ∀ s, hit = some s → s.res = .pass)
+    (hne : (testOne fx outcome fl bs noOut a files h stored hit).2.2.res ≠ .pass) :
+    (testOne fx outcome fl bs noOut a files h stored hit).1 = none ∧
+    (testOne fx outcome fl bs noOut a files h stored hit).2.1 = none := by
+  rcases testOne_cases fx outcome fl bs noOut a files h stored hit with ⟨s, hs, he⟩ | ⟨h1, _, _, h4, h5⟩
+  · rw [he] at hne
+    have hp : s.res = .pass := by
+      rcases hs with ⟨h1, _⟩ | h1
+      · exact hg _ h1
+      · exact hh _ h1
+    exact absurd hp hne
+  · rw [h1] at hne
+    have hc : (testOne fx outcome fl bs noOut a files h stored hit).2.1 = none := by
+      cases hx : (testOne fx outcome fl bs noOut a files h stored hit).2.1 with
+      | none => rfl
+      | some s' => exact absurd ((h4 s' hx).2.2 hstore).1 hne
+    refine ⟨?_, hc⟩
+    cases hx : (testOne fx outcome fl bs noOut a files h stored hit).1 with
+    | none => rfl
+    | some s' =>
+      rcases h5 s' hx with h6 | ⟨h6, _⟩
+      · rw [hc] at h6; simp at h6
+      · rw [hrm] at h6; simp at h6
 
-/-- With no results file the command is executed. -/
+/-- With no results file and nothing in the cache the command is executed. -/
 theorem testOne_none_runs (fl : Flags) (bs : BState) (noOut : Bool) (a : A') (files : List (N × C))
     {R : Type} [DecidableEq R] (h : R) (hn : fl.numRuns ≥ 1) :
-    (testOne fx outcome fl bs noOut a files h none).2.runs ≥ 1 ∧
-    (testOne fx outcome fl bs noOut a files h none).2.cached = false := by
-  unfold testOne needToRun
-  simp only
-  split
-  · rename_i o ho
-    split at ho <;> simp at ho
-  · split
-    · simp
-    · exact ⟨hn, rfl⟩
+    (testOne fx outcome fl bs noOut a files h none none).2.2.runs ≥ 1 ∧
+    (testOne fx outcome fl bs noOut a files h none none).2.2.cached = false := by
+  rcases testOne_cases fx outcome fl bs noOut a files h none none with ⟨s, hs, _⟩ | ⟨_, h2, h3, _⟩
+  · rcases hs with ⟨h1, _⟩ | h1 <;> simp at h1
+  · refine ⟨?_, h2⟩
+    rw [h3]; split <;> omega
 
 /-- The tests whose runtime inputs satisfy `P` (all of those the invocation would test). -/
 def Adm (P : A' → List (N × C) → Prop) (r : TRepo K A F N C A' G) (tsel : K → Bool) (out' : Out K C S N H)
@@ -212,29 +325,63 @@ def expected (r : TRepo K A F N C A' G) (tsel : K → Bool) (out' : Out K C S N 
 def outcomes (reps : List (K × Option Report)) : List (K × Option Outcome) :=
   reps.map (fun p => (p.1, p.2.map (·.res)))
 
+/-- The cache lookup of one test step, and the cache after it. -/
+theorem hit_good (P : A' → List (N × C) → Prop) (rc : RCache K (RStamp S' G N H)) (on : Bool) (k : K) (h : RStamp S' G N H)
+    (hrc : RCInv fx ruleSerRT pathSer outcome P rc) :
+    ∀ s, (if on then rc (k, h) else none) = some s → s.stamp = h ∧ Good fx ruleSerRT pathSer outcome P s := by
+  intro s hs
+  cases on with
+  | false => simp at hs
+  | true => exact hrc k h s (by simpa using hs)
+
+theorem rcinv_update (P : A' → List (N × C) → Prop) (rc : RCache K (RStamp S' G N H)) (on : Bool) (k : K) (h : RStamp S' G N H)
+    (new : Option (Stored (RStamp S' G N H)))
+    (hrc : RCInv fx ruleSerRT pathSer outcome P rc)
+    (hnew : ∀ s, new = some s → s.stamp = h ∧ Good fx ruleSerRT pathSer outcome P s) :
+    RCInv fx ruleSerRT pathSer outcome P (match new with
+      | some s => if on then (fun q => if q = (k, h) then some s else rc q) else rc
+      | none => rc) := by
+  cases new with
+  | none => exact hrc
+  | some s =>
+    cases on with
+    | false => exact hrc
+    | true =>
+      intro k' h' s' hq
+      simp only [if_true] at hq
+      by_cases hqe : (k', h') = (k, h)
+      · simp only [hqe, if_true, Option.some.injEq] at hq
+        subst hq
+        have := hnew s rfl
+        simp only [Prod.mk.injEq] at hqe
+        exact ⟨by rw [this.1, hqe.2], this.2⟩
+      · simp only [hqe, if_false] at hq
+        exact hrc k' h' s' hq
+
 theorem testList_spec (P : A' → List (N × C) → Prop) (hstore : fx.storeIfAllSucceeded = true)
     (r : TRepo K A F N C A' G) (tsel : K → Bool) (fl : Flags) (out0 out' : Out K C S N H) (ran : List K) :
-    ∀ (ts : List (Target K A F)) (res : Results K (RStamp S' G N H)),
-      RInv fx ruleSerRT pathSer outcome P res → Adm P r tsel out' ts →
-      RInv fx ruleSerRT pathSer outcome P (testList fx ruleSerRT pathSer outcome r tsel fl out0 out' ran ts res).1 ∧
+    ∀ (ts : List (Target K A F)) (res : Results K (RStamp S' G N H)) (rc : RCache K (RStamp S' G N H)),
+      RInv fx ruleSerRT pathSer outcome P res → RCInv fx ruleSerRT pathSer outcome P rc → Adm P r tsel out' ts →
+      RInv fx ruleSerRT pathSer outcome P (testList fx ruleSerRT pathSer outcome r tsel fl out0 out' ran ts res rc).1 ∧
+      RCInv fx ruleSerRT pathSer outcome P (testList fx ruleSerRT pathSer outcome r tsel fl out0 out' ran ts res rc).2.1 ∧
       (fx.verifiesHash = true → InjOn (G := G) fx ruleSerRT pathSer P →
-        outcomes (testList fx ruleSerRT pathSer outcome r tsel fl out0 out' ran ts res).2 = expected outcome r tsel out' ts) := by
+        outcomes (testList fx ruleSerRT pathSer outcome r tsel fl out0 out' ran ts res rc).2.2 = expected outcome r tsel out' ts) := by
   intro ts
   induction ts with
-  | nil => intro res h _; exact ⟨h, fun _ _ => rfl⟩
+  | nil => intro res rc h hc _; exact ⟨h, hc, fun _ _ => rfl⟩
   | cons t ts ih =>
-    intro res hinv hadm
+    intro res rc hinv hcinv hadm
     have hadm' : Adm P r tsel out' ts := fun t' ht' => hadm t' (List.mem_cons_of_mem _ ht')
     by_cases hs : tsel t.key = true
     · cases htd : r.tests t.key with
       | none =>
-        have := ih res hinv hadm'
+        have := ih res rc hinv hcinv hadm'
         simpa [testList, expected, hs, htd] using this
       | some td =>
         cases hf : runtimeFiles r.repo r.ownName out' t.key td with
         | none =>
-          obtain ⟨h1, h2⟩ := ih res hinv hadm'
-          refine ⟨by simpa [testList, hs, htd, hf] using h1, ?_⟩
+          obtain ⟨h1, h1c, h2⟩ := ih res rc hinv hcinv hadm'
+          refine ⟨by simpa [testList, hs, htd, hf] using h1, by simpa [testList, hs, htd, hf] using h1c, ?_⟩
           intro hv hi
           have := h2 hv hi
           simp only [testList, expected, hs, htd, hf, if_true, outcomes, List.map_cons, Option.map_none] at this ⊢
@@ -242,26 +389,36 @@ theorem testList_spec (P : A' → List (N × C) → Prop) (hstore : fx.storeIfAl
         | some files =>
           have hp : P td.rattrs files := hadm t (List.mem_cons_self ..) hs td htd files hf
           have hg : ∀ s, res t.key = some s → Good fx ruleSerRT pathSer outcome P s := fun s hs' => hinv t.key s hs'
+          have hh := hit_good fx ruleSerRT pathSer outcome P rc r.cacheOn t.key
+            (runtimeSer fx ruleSerRT pathSer r.cfg td.rattrs files) hcinv
+          have hgood := testOne_stored_good fx ruleSerRT pathSer outcome P hstore fl
+            (bstateOf pathSer out0 out' ran t.key) td.dummy r.cfg td.rattrs files (res t.key)
+            (if r.cacheOn then rc (t.key, runtimeSer fx ruleSerRT pathSer r.cfg td.rattrs files) else none)
+            hg (fun s hs' => (hh s hs').2) hp
           have hinv' : RInv fx ruleSerRT pathSer outcome P (fun j => if j = t.key then
               (testOne fx outcome fl (bstateOf pathSer out0 out' ran t.key) td.dummy td.rattrs files
-                (runtimeSer fx ruleSerRT pathSer r.cfg td.rattrs files) (res t.key)).1 else res j) := by
+                (runtimeSer fx ruleSerRT pathSer r.cfg td.rattrs files) (res t.key)
+                (if r.cacheOn then rc (t.key, runtimeSer fx ruleSerRT pathSer r.cfg td.rattrs files) else none)).1 else res j) := by
             intro j s hj
             by_cases hjk : j = t.key
             · simp only [hjk, if_true] at hj
-              exact testOne_stored_good fx ruleSerRT pathSer outcome P hstore fl _ td.dummy r.cfg td.rattrs files
-                (res t.key) hg hp s hj
+              exact hgood.1 s hj
             · simp only [hjk, if_false] at hj
               exact hinv j s hj
-          obtain ⟨h1, h2⟩ := ih _ hinv' hadm'
-          refine ⟨by simpa [testList, hs, htd, hf] using h1, ?_⟩
+          have hcinv' := rcinv_update fx ruleSerRT pathSer outcome P rc r.cacheOn t.key
+            (runtimeSer fx ruleSerRT pathSer r.cfg td.rattrs files) _ hcinv hgood.2
+          obtain ⟨h1, h1c, h2⟩ := ih _ _ hinv' hcinv' hadm'
+          refine ⟨by simp only [testList, hs, htd, hf, if_true]; exact h1,
+                  by simp only [testList, hs, htd, hf, if_true]; exact h1c, ?_⟩
           intro hv hi
           have h3 := h2 hv hi
           have h4 := testOne_res fx ruleSerRT pathSer outcome P hv hi fl (bstateOf pathSer out0 out' ran t.key)
-            td.dummy r.cfg td.rattrs files (res t.key) hg hp
+            td.dummy r.cfg td.rattrs files (res t.key) _ hg hh hp
           simp only [testList, expected, hs, htd, hf, if_true, outcomes, List.map_cons, Option.map_some] at h3 ⊢
-          rw [← h3, h4]
+          rw [h4]
+          exact congrArg (List.cons _) h3
     · simp only [Bool.not_eq_true] at hs
-      have := ih res hinv hadm'
+      have := ih res rc hinv hcinv hadm'
       simpa [testList, expected, hs] using this
 
 /-- Content agreement of two plz-outs on a set of keys. -/
@@ -329,49 +486,59 @@ theorem expected_congr (r : TRepo K A F N C A' G) (tsel : K → Bool) (out out' 
 /-- Every report marked cached is a pass that executed nothing. -/
 theorem testList_cached_pass (P : A' → List (N × C) → Prop) (hstore : fx.storeIfAllSucceeded = true)
     (r : TRepo K A F N C A' G) (tsel : K → Bool) (fl : Flags) (out0 out' : Out K C S N H) (ran : List K) :
-    ∀ (ts : List (Target K A F)) (res : Results K (RStamp S' G N H)),
-      RInv fx ruleSerRT pathSer outcome P res → Adm P r tsel out' ts →
-      ∀ k rep, (k, some rep) ∈ (testList fx ruleSerRT pathSer outcome r tsel fl out0 out' ran ts res).2 →
+    ∀ (ts : List (Target K A F)) (res : Results K (RStamp S' G N H)) (rc : RCache K (RStamp S' G N H)),
+      RInv fx ruleSerRT pathSer outcome P res → RCInv fx ruleSerRT pathSer outcome P rc → Adm P r tsel out' ts →
+      ∀ k rep, (k, some rep) ∈ (testList fx ruleSerRT pathSer outcome r tsel fl out0 out' ran ts res rc).2.2 →
         rep.cached = true → rep.res = .pass ∧ rep.runs = 0 := by
   intro ts
   induction ts with
-  | nil => intro res _ _ k rep hm; simp [testList] at hm
+  | nil => intro res rc _ _ _ k rep hm; simp [testList] at hm
   | cons t ts ih =>
-    intro res hinv hadm k rep hm hc
+    intro res rc hinv hcinv hadm k rep hm hc
     have hadm' : Adm P r tsel out' ts := fun t' ht' => hadm t' (List.mem_cons_of_mem _ ht')
     by_cases hs : tsel t.key = true
     · cases htd : r.tests t.key with
       | none =>
         simp only [testList, hs, htd, if_true] at hm
-        exact ih res hinv hadm' k rep hm hc
+        exact ih res rc hinv hcinv hadm' k rep hm hc
       | some td =>
         cases hf : runtimeFiles r.repo r.ownName out' t.key td with
         | none =>
           simp only [testList, hs, htd, hf, if_true, List.mem_cons, Prod.mk.injEq, reduceCtorEq, and_false, false_or] at hm
-          exact ih res hinv hadm' k rep hm hc
+          exact ih res rc hinv hcinv hadm' k rep hm hc
         | some files =>
           have hp : P td.rattrs files := hadm t (List.mem_cons_self ..) hs td htd files hf
           have hg : ∀ s, res t.key = some s → Good fx ruleSerRT pathSer outcome P s := fun s hs' => hinv t.key s hs'
+          have hh := hit_good fx ruleSerRT pathSer outcome P rc r.cacheOn t.key
+            (runtimeSer fx ruleSerRT pathSer r.cfg td.rattrs files) hcinv
+          have hgood := testOne_stored_good fx ruleSerRT pathSer outcome P hstore fl
+            (bstateOf pathSer out0 out' ran t.key) td.dummy r.cfg td.rattrs files (res t.key)
+            (if r.cacheOn then rc (t.key, runtimeSer fx ruleSerRT pathSer r.cfg td.rattrs files) else none)
+            hg (fun s hs' => (hh s hs').2) hp
           have hinv' : RInv fx ruleSerRT pathSer outcome P (fun j => if j = t.key then
               (testOne fx outcome fl (bstateOf pathSer out0 out' ran t.key) td.dummy td.rattrs files
-                (runtimeSer fx ruleSerRT pathSer r.cfg td.rattrs files) (res t.key)).1 else res j) := by
+                (runtimeSer fx ruleSerRT pathSer r.cfg td.rattrs files) (res t.key)
+                (if r.cacheOn then rc (t.key, runtimeSer fx ruleSerRT pathSer r.cfg td.rattrs files) else none)).1 else res j) := by
             intro j s hj
             by_cases hjk : j = t.key
             · simp only [hjk, if_true] at hj
-              exact testOne_stored_good fx ruleSerRT pathSer outcome P hstore fl _ td.dummy r.cfg td.rattrs files
-                (res t.key) hg hp s hj
+              exact hgood.1 s hj
             · simp only [hjk, if_false] at hj
               exact hinv j s hj
+          have hcinv' := rcinv_update fx ruleSerRT pathSer outcome P rc r.cacheOn t.key
+            (runtimeSer fx ruleSerRT pathSer r.cfg td.rattrs files) _ hcinv hgood.2
           simp only [testList, hs, htd, hf, if_true, List.mem_cons, Prod.mk.injEq, Option.some.injEq] at hm
           rcases hm with ⟨_, hrep⟩ | hm
           · subst hrep
             have := testOne_cached_pass fx outcome fl (bstateOf pathSer out0 out' ran t.key) td.dummy td.rattrs files
-              (runtimeSer fx ruleSerRT pathSer r.cfg td.rattrs files) (res t.key) (fun s hs' => (hg s hs').1) hc
+              (runtimeSer fx ruleSerRT pathSer r.cfg td.rattrs files) (res t.key)
+              (if r.cacheOn then rc (t.key, runtimeSer fx ruleSerRT pathSer r.cfg td.rattrs files) else none)
+              (fun s hs' => (hg s hs').1) (fun s hs' => (hh s hs').2.1) hc
             exact ⟨this.1, this.2.1⟩
-          · exact ih _ hinv' hadm' k rep hm hc
+          · exact ih _ _ hinv' hcinv' hadm' k rep hm hc
     · simp only [Bool.not_eq_true] at hs
       simp only [testList, hs] at hm
-      exact ih res hinv hadm' k rep (by simpa using hm) hc
+      exact ih res rc hinv hcinv hadm' k rep (by simpa using hm) hc
 
 theorem fst_snd_ext {α β} : ∀ (l l' : List (α × β)), l.map Prod.fst = l'.map Prod.fst → l.map Prod.snd = l'.map Prod.snd → l = l'
   | [], [], _, _ => rfl
@@ -415,18 +582,55 @@ theorem injOn_of_hashesNames (hr : fx.hashesRule = true) (hf : fx.hashesFiles = 
 
 variable (bfx : Build.Facts) (mv : C → C → C) (exec : A → List (N × C) → C) (ruleSer : A → S)
 
+/-- The build phase keeps the build invariants of plz-out and of the artifact cache. -/
+theorem buildPhase_inv (hmv : MvOK pathSer mv) (hP : Function.Injective pathSer)
+    (r : TRepo K A F N C A' G) (sel : K → Bool) (out : Out K C S N H) (bc : Build.Cache K C S N H)
+    (h : Inv exec ruleSer pathSer out) (hc : InvC exec ruleSer pathSer bc) :
+    Inv exec ruleSer pathSer (buildPhase pathSer bfx mv exec ruleSer r sel out bc).1 ∧
+    InvC exec ruleSer pathSer (buildPhase pathSer bfx mv exec ruleSer r sel out bc).2.1 := by
+  unfold buildPhase
+  by_cases hon : r.cacheOn = true
+  · simp only [hon, if_true]
+    exact buildListC_inv bfx mv exec ruleSer pathSer hmv hP r.repo sel r.repo.targets out bc h hc
+  · simp only [hon]
+    exact ⟨buildList_inv bfx mv exec ruleSer pathSer hmv hP r.repo sel r.repo.targets out h, hc⟩
+
+/-- From invariant-satisfying plz-out and cache, the build phase gives every target of the closure its clean output. -/
+theorem buildPhase_clean (hmv : MvOK pathSer mv) (hf : bfx.cmpRule = true ∧ bfx.cmpSource = true)
+    (hR : Function.Injective ruleSer) (hP : Function.Injective pathSer)
+    (r : TRepo K A F N C A' G) (sel : K → Bool) (out : Out K C S N H) (bc : Build.Cache K C S N H)
+    (h : Inv exec ruleSer pathSer out) (hc : InvC exec ruleSer pathSer bc) (hwf : WFList sel [] r.repo.targets) :
+    ∀ k ∈ selKeys sel r.repo.targets, ∃ c st,
+      (buildPhase pathSer bfx mv exec ruleSer r sel out bc).1 k = some (c, st) ∧ (clean exec r.repo sel).lookup k = some c := by
+  unfold buildPhase
+  by_cases hon : r.cacheOn = true
+  · simp only [hon, if_true]
+    have := buildListC_spec bfx mv exec ruleSer pathSer hmv hf hR hP r.repo sel r.repo.targets [] out bc [] rfl h hc
+      (by intro k hk; simp at hk) hwf
+    intro k hk
+    exact this.2.2.2 k (by simpa using hk)
+  · simp only [hon]
+    have := buildList_spec bfx mv exec ruleSer pathSer hmv hf hR hP r.repo sel r.repo.targets [] out [] rfl h
+      (by intro k hk; simp at hk) hwf
+    intro k hk
+    exact this.2.2 k (by simpa using hk)
+
 /-- Admissibility of a whole history: at every `plz test` the runtime inputs of the tested targets satisfy `P`. -/
 def AdmHist (P : A' → List (N × C) → Prop) :
-    List (TOp K A F N C A' G) → TState K C S N H (RStamp S' G N H) → Prop
+    List (TOp K A F N C S H A' G (RStamp S' G N H)) → TState K C S N H (RStamp S' G N H) → Prop
   | [], _ => True
   | .test r sel tsel fl :: ops, st =>
-    Adm P r tsel (build bfx mv exec ruleSer pathSer r.repo sel st.out).1 r.repo.targets ∧
+    Adm P r tsel (buildPhase pathSer bfx mv exec ruleSer r sel st.out st.bcache).1 r.repo.targets ∧
     AdmHist P ops (testAll fx ruleSerRT pathSer outcome bfx mv exec ruleSer r sel tsel fl st).1
-  | .build r sel :: ops, st => AdmHist P ops ⟨(build bfx mv exec ruleSer pathSer r sel st.out).1, st.res⟩
-  | .rmOut keep :: ops, st => AdmHist P ops ⟨fun k => if keep k then st.out k else none, st.res⟩
-  | .rmRes keep :: ops, st => AdmHist P ops ⟨st.out, fun k => if keep k then st.res k else none⟩
+  | .build r sel :: ops, st =>
+    AdmHist P ops ⟨(buildPhase pathSer bfx mv exec ruleSer r sel st.out st.bcache).1, st.res,
+                   (buildPhase pathSer bfx mv exec ruleSer r sel st.out st.bcache).2.1, st.rcache⟩
+  | .rmOut keep :: ops, st => AdmHist P ops ⟨fun k => if keep k then st.out k else none, st.res, st.bcache, st.rcache⟩
+  | .rmRes keep :: ops, st => AdmHist P ops ⟨st.out, fun k => if keep k then st.res k else none, st.bcache, st.rcache⟩
+  | .evictB keep :: ops, st => AdmHist P ops ⟨st.out, st.res, fun q => if keep q then st.bcache q else none, st.rcache⟩
+  | .evictR keep :: ops, st => AdmHist P ops ⟨st.out, st.res, st.bcache, fun q => if keep q then st.rcache q else none⟩
 
-theorem admHist_true : ∀ (ops : List (TOp K A F N C A' G)) (st : TState K C S N H (RStamp S' G N H)),
+theorem admHist_true : ∀ (ops : List (TOp K A F N C S H A' G (RStamp S' G N H))) (st : TState K C S N H (RStamp S' G N H)),
     AdmHist fx ruleSerRT pathSer outcome bfx mv exec ruleSer (fun _ _ => True) ops st := by
   intro ops
   induction ops with
@@ -438,40 +642,60 @@ theorem admHist_true : ∀ (ops : List (TOp K A F N C A' G)) (st : TState K C S 
     | build r sel => exact ih _
     | rmOut keep => exact ih _
     | rmRes keep => exact ih _
+    | evictB keep => exact ih _
+    | evictR keep => exact ih _
 
-/-- Every history keeps the results invariant (no injectivity needed) … -/
+/-- Every history keeps the invariants of the results files and of the cached results (no injectivity needed) … -/
 theorem runHistT_rinv (P : A' → List (N × C) → Prop) (hstore : fx.storeIfAllSucceeded = true) :
-    ∀ (ops : List (TOp K A F N C A' G)) (st : TState K C S N H (RStamp S' G N H)),
-      RInv fx ruleSerRT pathSer outcome P st.res → AdmHist fx ruleSerRT pathSer outcome bfx mv exec ruleSer P ops st →
-      RInv fx ruleSerRT pathSer outcome P (runHistT fx ruleSerRT pathSer outcome bfx mv exec ruleSer ops st).res := by
+    ∀ (ops : List (TOp K A F N C S H A' G (RStamp S' G N H))) (st : TState K C S N H (RStamp S' G N H)),
+      RInv fx ruleSerRT pathSer outcome P st.res → RCInv fx ruleSerRT pathSer outcome P st.rcache →
+      AdmHist fx ruleSerRT pathSer outcome bfx mv exec ruleSer P ops st →
+      RInv fx ruleSerRT pathSer outcome P (runHistT fx ruleSerRT pathSer outcome bfx mv exec ruleSer ops st).res ∧
+      RCInv fx ruleSerRT pathSer outcome P (runHistT fx ruleSerRT pathSer outcome bfx mv exec ruleSer ops st).rcache := by
   intro ops
   induction ops with
-  | nil => intro st h _; exact h
+  | nil => intro st h hc _; exact ⟨h, hc⟩
   | cons op ops ih =>
-    intro st h hadm
+    intro st h hc hadm
     cases op with
     | test r sel tsel fl =>
       obtain ⟨ha, hrest⟩ := hadm
-      refine ih _ ?_ hrest
-      exact (testList_spec fx ruleSerRT pathSer outcome P hstore r tsel fl st.out _ _ r.repo.targets st.res h ha).1
-    | build r sel => exact ih _ h hadm
-    | rmOut keep => exact ih _ h hadm
-    | rmRes keep => exact ih _ (rinv_restrict fx ruleSerRT pathSer outcome P st.res keep h) hadm
+      have := testList_spec fx ruleSerRT pathSer outcome P hstore r tsel fl st.out
+        (buildPhase pathSer bfx mv exec ruleSer r sel st.out st.bcache).1
+        (buildPhase pathSer bfx mv exec ruleSer r sel st.out st.bcache).2.2 r.repo.targets st.res st.rcache h hc ha
+      exact ih _ this.1 this.2.1 hrest
+    | build r sel => exact ih _ h hc hadm
+    | rmOut keep => exact ih _ h hc hadm
+    | rmRes keep => exact ih _ (rinv_restrict fx ruleSerRT pathSer outcome P st.res keep h) hc hadm
+    | evictB keep => exact ih _ h hc hadm
+    | evictR keep => exact ih _ h (rcinv_restrict fx ruleSerRT pathSer outcome P st.rcache keep hc) hadm
 
-/-- … and the build invariant of plz-out (needs `pathSer` injective, as in C01). -/
+/-- … and the build invariants of plz-out and of the artifact cache (needs `pathSer` injective, as in C01 / C02). -/
 theorem runHistT_inv (hmv : MvOK pathSer mv) (hP : Function.Injective pathSer) :
-    ∀ (ops : List (TOp K A F N C A' G)) (st : TState K C S N H (RStamp S' G N H)),
-      Inv exec ruleSer pathSer st.out →
-      Inv exec ruleSer pathSer (runHistT fx ruleSerRT pathSer outcome bfx mv exec ruleSer ops st).out := by
+    ∀ (ops : List (TOp K A F N C S H A' G (RStamp S' G N H))) (st : TState K C S N H (RStamp S' G N H)),
+      Inv exec ruleSer pathSer st.out → InvC exec ruleSer pathSer st.bcache →
+      Inv exec ruleSer pathSer (runHistT fx ruleSerRT pathSer outcome bfx mv exec ruleSer ops st).out ∧
+      InvC exec ruleSer pathSer (runHistT fx ruleSerRT pathSer outcome bfx mv exec ruleSer ops st).bcache := by
   intro ops
   induction ops with
-  | nil => intro st h; exact h
+  | nil => intro st h hc; exact ⟨h, hc⟩
   | cons op ops ih =>
-    intro st h
+    intro st h hc
     cases op with
-    | test r sel tsel fl => exact ih _ (buildList_inv bfx mv exec ruleSer pathSer hmv hP r.repo sel r.repo.targets st.out h)
-    | build r sel => exact ih _ (buildList_inv bfx mv exec ruleSer pathSer hmv hP r sel r.targets st.out h)
-    | rmOut keep => exact ih _ (inv_restrict exec ruleSer pathSer st.out keep h)
-    | rmRes keep => exact ih _ h
+    | test r sel tsel fl =>
+      have := buildPhase_inv pathSer bfx mv exec ruleSer hmv hP r sel st.out st.bcache h hc
+      exact ih _ this.1 this.2
+    | build r sel =>
+      have := buildPhase_inv pathSer bfx mv exec ruleSer hmv hP r sel st.out st.bcache h hc
+      exact ih _ this.1 this.2
+    | rmOut keep => exact ih _ (inv_restrict exec ruleSer pathSer st.out keep h) hc
+    | rmRes keep => exact ih _ h hc
+    | evictB keep =>
+      refine ih _ h ?_
+      intro k st' c hk
+      by_cases hkk : keep (k, st') = true
+      · simp [hkk] at hk; exact hc k st' c hk
+      · simp [hkk] at hk
+    | evictR keep => exact ih _ h hc
 
 end PlzVerif.TestCache
